@@ -313,16 +313,30 @@ func oC13(ix *Index) []Violation {
 
 // ---------------------------------------------------------------- C15
 
+// oC15 replays the dispatcher on model queues. The model holds, per queue, the accepted jobs in
+// dispatch order, including jobs cancelled while pending: those stay in their queue (and count in
+// its length) until the dispatcher takes and drops them, which uses up that queue's turn.
 func oC15(ix *Index) []Violation {
 	var out []Violation
 	nq := len(ix.QKinds)
-	// model populations: per queue, accepted jobs in dispatch order
-	pending := make([][]*JobRec, nq)
+	model := make([][]*JobRec, nq)
+	inModel := map[int]bool{}
 	accAt := func(j *JobRec) int {
 		if j.Pre {
 			return -1
 		}
 		return j.Add.Ret
+	}
+	cancelledBefore := func(j *JobRec, pos int) (bool, bool) { // (certainly cancelled, uncertain)
+		for _, cl := range j.Closes {
+			if cl.Returned() && cl.RetEv.OK && cl.Ret < pos {
+				return true, false
+			}
+			if cl.Call < pos && cl.end(ix.N) > pos {
+				return false, true
+			}
+		}
+		return false, false
 	}
 	rr := 0
 	strat := ix.C.Cfg.Strategy
@@ -331,71 +345,111 @@ func oC15(ix *Index) []Violation {
 			continue
 		}
 		for _, c := range ix.Calls {
-			if (c.Op == "add" || c.Op == "addall") && c.Call < pos && c.end(ix.N) > pos {
-				return out // a submission is in progress: the model does not know the populations any more
+			if (c.Op == "add" || c.Op == "addall" || c.Op == "close" || c.Op == "purge") && c.Call < pos && c.end(ix.N) > pos {
+				return out // a submission or cancellation is in progress: the model does not know the queues any more
 			}
 		}
-		// jobs certainly accepted before this dispatch and not yet entered
-		for q := range pending {
-			pending[q] = pending[q][:0]
-		}
+		// bring the model up to date: jobs accepted since the last dispatch, in queue order
 		for _, n := range ix.JobNums {
 			j := ix.Jobs[n]
-			if j.Q < 0 || j.Q >= nq || j.Accepted != 1 || j.firstEnter(ix.N) < pos {
+			if inModel[n] || j.Q < 0 || j.Q >= nq || j.Accepted != 1 || j.It == nil {
 				continue
 			}
 			if accAt(j) >= pos {
-				if j.N == ev.J {
-					return nil // dispatched before its Add returned: the model does not know the populations
+				if n == ev.J {
+					return out // dispatched before its Add returned
 				}
 				continue
 			}
-			pending[j.Q] = append(pending[j.Q], j)
+			inModel[n] = true
+			l := model[j.Q]
+			i := len(l)
+			for i > 0 && ix.orderedBefore(j, l[i-1]) {
+				i--
+			}
+			l = append(l, nil)
+			copy(l[i+1:], l[i:])
+			l[i] = j
+			model[j.Q] = l
 		}
 		a := ix.Jobs[ev.J]
-		lens := make([]int, nq)
-		for q := range pending {
-			lens[q] = len(pending[q])
-		}
-		if lens[a.Q] == 0 {
-			return nil
-		}
-		// head of the chosen queue (C04 order)
-		for _, b := range pending[a.Q] {
-			if b != a && ix.orderedBefore(b, a) {
-				out = append(out, v("C15", "not-head", "dispatch at %d took job %d from queue %d although job %d is ahead of it", pos, a.N, a.Q, b.N))
+		// replay the dispatcher until it starts a job
+		for steps := 0; ; steps++ {
+			lens := make([]int, nq)
+			total := 0
+			for q := range model {
+				lens[q] = len(model[q])
+				total += lens[q]
+			}
+			if total == 0 || steps > 10000 {
+				out = append(out, v("C15", "phantom", "dispatch at %d started job %d but the model's queues are empty", pos, a.N))
 				return out
 			}
-		}
-		switch strat {
-		case 0:
 			want := -1
-			for k := 0; k < nq; k++ {
-				q := (rr + k) % nq
-				if lens[q] > 0 {
-					want = q
-					break
+			switch strat {
+			case 0:
+				for k := 0; k < nq; k++ {
+					if q := (rr + k) % nq; lens[q] > 0 {
+						want = q
+						break
+					}
+				}
+			case 1:
+				for q := range lens {
+					if want < 0 || lens[q] > lens[want] {
+						want = q
+					}
+				}
+			case 2:
+				for q := range lens {
+					if lens[q] > 0 && (want < 0 || lens[q] < lens[want]) {
+						want = q
+					}
 				}
 			}
-			if want != a.Q {
-				out = append(out, v("C15", "round-robin", "dispatch at %d took queue %d; round robin (cursor %d, pending per queue %v, binding order %v) must take queue %d", pos, a.Q, rr, lens, ix.QKinds, want))
+			// several queues can tie for MaxLen/MinLen: any of them is allowed
+			ok := func(q int) bool {
+				switch strat {
+				case 1:
+					return lens[q] == lens[want]
+				case 2:
+					return lens[q] > 0 && lens[q] == lens[want]
+				}
+				return q == want
+			}
+			head := model[want][0]
+			if c, unsure := cancelledBefore(head, pos); unsure {
+				return out
+			} else if c && !(strat != 0 && ok(a.Q) && a.Q != want) {
+				// the dispatcher takes the cancelled job, drops it and tries again (round robin: the turn is used)
+				model[want] = model[want][1:]
+				if strat == 0 {
+					rr = (want + 1) % nq
+				}
+				continue
+			}
+			if !ok(a.Q) {
+				name := []string{"round-robin", "max-len", "min-len"}[strat]
+				out = append(out, v("C15", name, "dispatch at %d took job %d from queue %d; strategy %s with pending per queue %v (cursor %d, binding order %v) must take queue %d", pos, a.N, a.Q, name, lens, rr, ix.QKinds, want))
 				return out
 			}
-			rr = (a.Q + 1) % nq
-		case 1:
-			for q := range lens {
-				if lens[q] > lens[a.Q] {
-					out = append(out, v("C15", "max-len", "dispatch at %d took queue %d with %d pending although queue %d has %d (%v)", pos, a.Q, lens[a.Q], q, lens[q], lens))
-					return out
+			q := a.Q
+			if model[q][0] != a {
+				if c, _ := cancelledBefore(model[q][0], pos); c {
+					model[q] = model[q][1:]
+					if strat == 0 {
+						rr = (q + 1) % nq
+					}
+					continue
 				}
+				out = append(out, v("C15", "not-head", "dispatch at %d took job %d from queue %d although job %d is ahead of it", pos, a.N, q, model[q][0].N))
+				return out
 			}
-		case 2:
-			for q := range lens {
-				if lens[q] > 0 && lens[q] < lens[a.Q] {
-					out = append(out, v("C15", "min-len", "dispatch at %d took queue %d with %d pending although queue %d has only %d (%v)", pos, a.Q, lens[a.Q], q, lens[q], lens))
-					return out
-				}
+			model[q] = model[q][1:]
+			if strat == 0 {
+				rr = (q + 1) % nq
 			}
+			break
 		}
 	}
 	return out
